@@ -185,7 +185,7 @@ claim('C12', 'Coq proof (a stop request is enabled in every protocol state and i
       'that has left holds no lock; once nobody holds a lock, later workers complete the computation with the sequential values.  ' + _EXEC_TIE +
       '  SystemExit/KeyboardInterrupt raised at every scheduling point of small programs, the real exit_checks hooks; a stop request arriving inside store.dump(); real SIGTERM / SIGINT (single and repeated) to real `jug execute` processes on file, file_keepalive and dict_store:FILE stores, inside a task function (quick) and in the wait loop (thorough), incl. stop requests delivered to the worker\'s whole process group on file_keepalive (keep-alive monitor dead before the worker unwinds); end state read by a fresh process.',
       _EXEC_NOTE + '  Signal delivery inside lock.get() itself is outside the model (and outside the property).', 'DESIGN.md sec. 3 C12')
-claim('C13', 'Coq proof (a crash - or any number of crashes at once - changes nothing but the crashed workers; cleanup --locks-only is then enabled and restores the premises of the restart theorem; dead workers are silent; results are write-once and sound; stale-lock removal; restart + completeness) + trace validation of real crashed-and-recovered runs in coqc',
+claim('C13', 'Coq proof (a crash - or any number of crashes at once - changes nothing but the crashed workers; cleanup --locks-only is then enabled and restores the premises of the restart theorem; recovery end to end from any reachable state; dead workers are silent; results are write-once and sound; stale-lock removal; restart + completeness) + trace validation of real crashed-and-recovered runs in coqc',
       'Theorems (Props/C13.v): a crash at any point leaves every result, every lock and every other worker as they were (residue: the locks it held); the dead worker '
       'never acts again; everything stored stays stored, unchanged and sequential, and is never re-run; stale locks can be removed as soon as every holder is dead, '
       'which frees every lock and touches nothing else; a fresh execute then completes the whole computation.  ' + _EXEC_TIE +
